@@ -1,7 +1,7 @@
 (* C11 history: theorems about code that is NO LONGER in /repo (documentation only; not part of the C11 obligations).
    Before fix f08a0a1 Namespace.__eq__/__hash__ compared the STROPPED full namespace (model: eqkey = strop); finding F-NS-FOLD,
    reproduced on the real nnvg in round 2, fixed since. *)
-From Verif Require Import NamespaceBase NamespaceThm.
+From Verif Require Import NamespaceBase NamespaceThm NamespaceFsThm.
 Open Scope N_scope.
 
 Lemma w_fold : ns_fold w_strop [w_Q; w_R] = true.
@@ -37,3 +37,19 @@ Proof.
 Qed.
 Print Assumptions C11_prefix_code_types_each_once_refuted.
 
+
+(* ---- before fix 39680a3 (F-NS-STEM-COLLIDE): no collision check in build_namespace_tree ---------------------------------- *)
+(* WITHOUT the stem check (build_checked false = build; the state of /repo while pin_c11tree_stem_check = false) the full statement
+   of (15) (every stem) is FALSE of the faithful model: known finding F-NS-STEM-COLLIDE.  Fixed by 39680a3 (collision check).  Witness: ns.T.1.0
+   with namespace-file stem "T_1_0": namespace file and type file are one path, written twice. *)
+Theorem c11_targets_distinct_refuted_before_39680a3 :
+  exists (strop : str -> str) (stem : str) (types : list ty) (r : str) (k : key) (t : ty),
+    NoDup types /\ one_root r types /\ types <> [] /\ In t types /\
+    In k (keys (fst (build strop same true w_ext w_out w_id types))) /\
+    ns_path strop w_ext stem w_out k = out_path strop true w_ext w_out t /\
+    c11_targets strop true w_ext stem w_out true w_id types = [ns_path strop w_ext stem w_out k; out_path strop true w_ext w_out t].
+Proof.
+  exists same, w_stem, [w_T], w_ns, [w_ns], w_T. destruct stem_collision_witness as (A & B & C & D).
+  split; [repeat constructor; intros []|]. split; [intros t [<-|[]]; eexists; reflexivity|]. split; [discriminate|]. auto.
+Qed.
+Print Assumptions c11_targets_distinct_refuted_before_39680a3.
